@@ -18,14 +18,26 @@ TRUSTED = [
     "(settings tree obtained by introspection of the real objects: declared properties with/without setter, "
     "vars(), dict items, model arguments, models of a group; the setters' range guards are looked up in the regenerated table)",
     "modelled, not verified: Python attribute lookup order (data descriptor, instance dict, class attribute, "
-    "__getattr__), str.split/find/slicing, ast.literal_eval on the literal subset",
+    "__getattr__), str.split/find/slicing, ast.literal_eval on the literal subset, truthiness / `is True` / `== True` on "
+    "the values a flag can hold",
+    "translator/c08.py also reads the test ModelGroup.__iter__ applies to a model's enabled flag, the test "
+    "Observation.validate_steps applies to it, and the names Arguments.__setattr__ hands to object.__setattr__ (fail closed); "
+    "probes/verif_probes_c08.py (recording probe models: which model ran, with which argument values)",
 ]
 ASSUME = [
     "private names occur as LAST key component only, and only those that do not exist or are not the backing field of a "
     "setting listed in the snapshot: a private backing field (_row / row, _phasing / phasing, Arguments._arguments) and a "
     "list index (models.0 / <model name>) are a second key for a setting that already has one, and the tree model has no "
     "sharing inside one processor; such keys are outside the modelled key space",
-    "scalar leaves expose no attributes (int.real, str.upper ... are not settings and are not generated)",
+    "scalar leaves expose no attributes (int.real, str.upper ... are not settings and are not generated); the same holds "
+    "for a method object: a model called like a method of ModelGroup (`run`) is hidden by that method, and keys through "
+    "it are generated with public components only (every Python object, a method included, has `__class__`, `__eq__` ...)",
+    "class-level names used as last component (methods, class constants, read-only properties holding a plain value) are "
+    "listed by introspection of the implementation under test (generator input only; static table as fallback); "
+    "properties of Detector that hold data containers (photon, pixel, ...) or whose getter raises, and `numbytes` (reading "
+    "it changes private caches), are not used as key components",
+    "the effect of a sweep is observed on non-dask runs (product, sequential, custom mode), one readout time per run, with "
+    "every model replaced by a recording probe; models of one group have distinct names",
     "APD avalanche_gain / pixel_reset_voltage / common_voltage are a documented coupled triple: when one of them is "
     "assigned, the triple and its derived caches are not compared",
     "literal subset: decimal integers, decimals/exponents (dyadic values, compared as exact rationals), True/False/None, "
@@ -155,6 +167,34 @@ def gen_argval(r):
     return r.randrange(0, 10)
 
 
+# the `enabled` flag is an ordinary setting: a configuration (`enabled: 1`), a constructor, Processor.set or an override
+# text ('1' -> int 1) can put any value there.  Non-bool truthy / falsy values are the inputs on which two readers of
+# the flag (validation of a sweep, execution of the pipeline) can disagree.
+FLAG_VALUES = [1, 0, 1.0, 0.0, 2, "yes", "", None, {"t": "npbool", "v": True}, {"t": "npbool", "v": False}, "false", 0.5]
+
+
+def gen_flag(r):
+    if r.random() < 0.7:
+        return r.random() < 0.75
+    v = r.choice(FLAG_VALUES)
+    return v if isinstance(v, dict) else jv(v)
+
+
+def flag_truthy(e) -> bool:
+    if not isinstance(e, dict):
+        return bool(e)
+    t = e["t"]
+    if t in ("bool", "npbool"):
+        return bool(e["v"])
+    if t == "int":
+        return int(e["v"]) != 0
+    if t == "dec":
+        return int(e["m"]) != 0
+    if t == "str":
+        return e["v"] != ""
+    return False
+
+
 def gen_pipe(r, rich=True):
     pipe = {}
     for g in r.sample(GROUPS, r.randrange(1, 4)):
@@ -171,7 +211,7 @@ def gen_pipe(r, rich=True):
                     args[a] = jv([1, 2, 3])
                 else:
                     args[a] = jv(gen_argval(r))
-            m = dict(func=f"pyxel.models.{g}.{n}", name=n, enabled=r.random() < 0.75, arguments=args)
+            m = dict(func=f"pyxel.models.{g}.{n}", name=n, enabled=gen_flag(r), arguments=args)
             models.append(m)
         pipe[g] = models
     return pipe
@@ -272,6 +312,123 @@ def gen_value(r, field, guarded, want_valid=True):
 
 ALPH = "abcdefghijklmnopqrstuvwxyz_"
 
+# --- class-level names: a key whose LAST component is the name of a method / class constant / read-only property of the
+# CLASS of the object the key walks to (Arguments and dict: the Mapping methods; the detector sections: to_dict ...;
+# ModelFunction, ModelGroup, DetectionPipeline, Detector, Processor).  Such a name exists (hasattr is True) but is no
+# setting: the assignment must be refused and nothing may change (no instance attribute may shadow the method).
+# The names are obtained from the implementation under test by introspection (driver op "names": generator input only);
+# this table is the fallback when that fails.
+_MAPPING = ["clear", "get", "items", "keys", "pop", "popitem", "setdefault", "update", "values", "__len__", "__iter__",
+            "__contains__", "__eq__", "__getitem__", "__setitem__", "__class__", "__init__"]
+_OBJ = ["__eq__", "__repr__", "__init__", "__class__", "__hash__"]
+STATIC_NAMES = {
+    "Processor": ["get", "has", "set", "replace", "run_pipeline", "result_to_dataset"] + _OBJ,
+    "Detector": ["to_dict", "from_dict", "empty", "load", "save", "to_xarray", "memory_usage", "set_readout",
+                 "is_dynamic"] + _OBJ,
+    "Geometry": ["to_dict", "from_dict", "shape", "horz_dimension", "vert_dimension"] + _OBJ,
+    "Environment": ["to_dict", "from_dict"] + _OBJ,
+    "Characteristics": ["to_dict", "from_dict", "system_gain"] + _OBJ,
+    "DetectionPipeline": ["MODEL_GROUPS", "describe", "get_model", "model_group_names"] + _OBJ,
+    "ModelGroup": ["run", "__iter__", "__getattr__", "__deepcopy__"] + _OBJ,
+    "ModelFunction": ["name", "__call__"] + _OBJ,
+    "Arguments": _MAPPING + ["__getattr__", "__setattr__", "__dir__", "_abc_impl"],
+    "dict": _MAPPING + ["copy", "fromkeys"],
+}
+NAMES: dict = {}      # detector type -> landing class -> usable class-level names (filled by load_names)
+USABLE_KINDS = ("method", "constant", "prop_ro_plain")
+
+
+def load_names(ctx: Ctx):
+    pipe = {"photon_collection": [dict(func="f.illumination", name="illumination", enabled=True, arguments={"level": jv(1)})]}
+    dets = ["ccd", "cmos", "mkid", "apd"]
+    obs = core.run_driver(ctx, "c08", [dict(op="names", det=d, pipe=pipe) for d in dets], workers=1)
+    NAMES.clear()
+    for d, o in zip(dets, obs):
+        if "names" not in o:
+            ctx.log(f"class-level names of a {d} processor could not be listed (static table used): {str(o)[:200]}")
+            NAMES[d] = {k: list(v) for k, v in STATIC_NAMES.items()}
+            continue
+        NAMES[d] = {label: sorted(n for n, kind in rows if kind in USABLE_KINDS and ok_str(n) and n not in GROUPS)
+                    for label, rows in o["names"].items()}
+        for label, static in STATIC_NAMES.items():
+            NAMES[d].setdefault(label, list(static))
+
+
+def names_of(det: str, label: str):
+    return (NAMES.get(det) or NAMES.get("ccd") or STATIC_NAMES).get(label) or STATIC_NAMES[label]
+
+
+def landing_label(prefix):
+    """the class of the object a valid key's prefix walks to"""
+    n = len(prefix)
+    if n == 0:
+        return "Processor"
+    if prefix[0] == "detector":
+        return "Detector" if n == 1 else {"geometry": "Geometry", "environment": "Environment",
+                                          "characteristics": "Characteristics"}.get(prefix[1]) if n == 2 else None
+    if prefix[0] == "pipeline":
+        if n <= 3:
+            return {1: "DetectionPipeline", 2: "ModelGroup", 3: "ModelFunction"}[n]
+        if prefix[3] == "arguments":
+            return "Arguments" if n == 4 else ("dict" if n == 5 else None)
+    return None
+
+
+def declared_here(pipe, prefix):
+    """the settings / items that really exist below this prefix (so that a class-level name that is ALSO declared —
+    an argument called `values` — is not mislabelled)"""
+    if len(prefix) >= 4 and prefix[0] == "pipeline" and prefix[3] == "arguments":
+        for m in pipe.get(prefix[1], []):
+            if m["name"] == prefix[2]:
+                if len(prefix) == 4:
+                    return set(m["arguments"])
+                v = m["arguments"].get(prefix[4])
+                return set(v["v"]) if isinstance(v, dict) and v.get("t") == "dictv" else set()
+    if len(prefix) == 2 and prefix[0] == "pipeline":
+        return {m["name"] for m in pipe.get(prefix[1], [])}
+    return set()
+
+
+# names EVERY Python object has, None included: a key whose path does not exist (a misspelt inner component) must not be
+# confirmed by has() just because its last component is one of them
+UNIVERSAL_DUNDERS = ["__class__", "__eq__", "__doc__", "__init__", "__reduce__", "__hash__", "__str__", "__repr__", "__ne__", "__dir__"]
+
+
+def missing_path_dunder_key(r, key: str):
+    """one STRUCTURAL component misspelt (detector / its section / pipeline / the group / `arguments`: a misspelt model
+    or argument name could be another existing one, and then the key would walk into a value), cut anywhere after it,
+    + a name every object has"""
+    parts = key.split(".")
+    structural = [i for i in range(len(parts) - 1) if i in (0, 1) or (i == 3 and parts[0] == "pipeline" and parts[3] == "arguments")]
+    i = r.choice(structural)
+    d = r.randrange(i + 1, len(parts) + 1)
+    prefix = parts[:d]
+    prefix[i] = misspell(r, parts[i])
+    while prefix[i].startswith("_") or prefix[i] in GROUPS or prefix[i] in ("detector", "pipeline", "observation", "arguments"):
+        prefix[i] = misspell(r, parts[i])
+    return ".".join(prefix + [r.choice(UNIVERSAL_DUNDERS)])
+
+
+def walk_reaches(prefix, det="ccd") -> bool:
+    """a model called like a method of ModelGroup (`run`) is hidden by that method: keys through it walk into the method
+    object, which the settings tree lists as a leaf without attributes (see ASSUME)"""
+    return not (len(prefix) >= 3 and prefix[0] == "pipeline" and (prefix[2] in names_of(det, "ModelGroup") or prefix[2] in STATIC_NAMES["ModelGroup"]))
+
+
+def class_attr_key(r, key: str, pipe, det="ccd", dunder=0.25):
+    """a valid key cut after one of its objects + a class-level name of that object's class"""
+    parts = key.split(".")
+    depths = [d for d in range(len(parts)) if landing_label(parts[:d]) and walk_reaches(parts[:d], det)]
+    if parts[0] == "pipeline" and len(parts) >= 5 and r.random() < 0.5 and 4 in depths:
+        depths = [4]            # the Arguments object: the place where a name is most easily both
+    d = r.choice(depths)
+    prefix = parts[:d]
+    pool = [n for n in names_of(det, landing_label(prefix)) if n not in declared_here(pipe, prefix)]
+    pub = [n for n in pool if not n.startswith("_")]
+    prv = [n for n in pool if n.startswith("_")]
+    name = r.choice(prv) if prv and (not pub or r.random() < dunder) else r.choice(pub)
+    return ".".join(prefix + [name])
+
 
 def misspell(r, comp: str) -> str:
     if not comp:
@@ -290,9 +447,13 @@ def misspell(r, comp: str) -> str:
     return comp[:i] + r.choice(ALPH) + comp[i:]
 
 
-def mutate_key(r, key: str, pipe):
+def mutate_key(r, key: str, pipe, det="ccd"):
     parts = key.split(".")
-    k = r.randrange(10)
+    k = r.randrange(12)
+    if k >= 10:
+        if r.random() < 0.2:
+            return missing_path_dunder_key(r, key), "missing_path_dunder"
+        return class_attr_key(r, key, pipe, det), "class_attr_last"
     if k <= 3:  # misspelt last component (edit distance 1)
         parts[-1] = misspell(r, parts[-1])
         kind = "misspelt_last"
@@ -373,7 +534,7 @@ def gen_set_cases(ctx: Ctx, budget: int):
             elif roll < 0.52:
                 k2, kind = private_key(r, key)
             else:
-                k2, kind = mutate_key(r, key, pipe)
+                k2, kind = mutate_key(r, key, pipe, det)
             want_valid = r.random() < 0.8
             val = gen_value(r, field, guarded and kind == "valid", want_valid)
             if kind != "valid" and guarded and r.random() < 0.5:
@@ -425,6 +586,66 @@ def exhaustive_valid_cases(ctx: Ctx):
                                   cls=cls, value=jv(3), path="set", ignore=[]))
     return cases
 
+
+
+RICH_PIPE = {"photon_collection": [dict(func="f.illumination", name="illumination", enabled=True,
+                                        arguments={"level": 1, "values": 3, "lst": [1, 2], "d": {"k": 1, "keys": 2}}),
+                                   dict(func="f.illum", name="illum", enabled=False, arguments={"level": 2})],
+             "charge_generation": [dict(func="f.illum", name="illum", enabled=True, arguments={})]}
+
+
+def _rich_pipe():
+    out = {}
+    for g, ms in RICH_PIPE.items():
+        out[g] = [dict(m, arguments={a: ({"t": "dictv", "v": {k: jv(x) for k, x in v.items()}} if isinstance(v, dict) else jv(v))
+                                     for a, v in m["arguments"].items()}) for m in ms]
+    return out
+
+
+def exhaustive_class_attr_cases(ctx: Ctx):
+    """EVERY public class-level name (method, class constant, read-only property) of every kind of object a key can land
+    on — Processor, Detector, its three sections, DetectionPipeline, ModelGroup, ModelFunction, Arguments (with and
+    without declared arguments, of an enabled and of a disabled model), a dict-valued argument — as last component, plus
+    a sample of the non-public ones; all of them on a ccd processor, and for the other detector types the names their
+    classes add.  Nothing of this is a setting: has() may say True, set() must refuse and change nothing."""
+    r = ctx.rng("exh_class")
+    pipe = _rich_pipe()
+    landings = [[], ["detector"], ["detector", "geometry"], ["detector", "environment"], ["detector", "characteristics"],
+                ["pipeline"], ["pipeline", "photon_collection"], ["pipeline", "photon_collection", "illumination"],
+                ["pipeline", "photon_collection", "illumination", "arguments"],
+                ["pipeline", "photon_collection", "illum", "arguments"],
+                ["pipeline", "charge_generation", "illum", "arguments"],
+                ["pipeline", "photon_collection", "illumination", "arguments", "d"]]
+    cases = []
+
+    def add(det, prefix, name):
+        cases.append(dict(op="set", det=det, pipe=pipe, key=".".join(prefix + [name]), kind="class_attr_last", field=name,
+                          cls="class_attr", value=jv(r.choice([5, 5, "8", 0.5, "foo", [1, 2], True])),
+                          path=r.choice(["set", "set", "override"]), ignore=[]))
+
+    seen = {}
+    for det in ["ccd", "cmos", "mkid", "apd"]:
+        for prefix in landings:
+            label = landing_label(prefix)
+            pool = [n for n in names_of(det, label) if n not in declared_here(pipe, prefix)]
+            pub = [n for n in pool if not n.startswith("_")]
+            prv = [n for n in pool if n.startswith("_")]
+            if det == "ccd":
+                chosen = pub + r.sample(prv, min(3, len(prv)))
+                seen[tuple(prefix)] = set(pub)
+            else:
+                new = [n for n in pub if n not in seen[tuple(prefix)]]
+                chosen = new + r.sample(pub, min(1, len(pub)))
+            for n in chosen:
+                add(det, prefix, n)
+    # a path that does not exist + a name every object (None included) has
+    for prefix in (["detector", "geomtry"], ["detecto"], ["detector", "environment", "temperatur"],
+                   ["pipeline", "photon_colection", "illumination"], ["pipeline", "photon_collection", "illumination", "argument"],
+                   ["pipeline", "phasing", "m"]):
+        for n in r.sample(UNIVERSAL_DUNDERS, 2):
+            add("ccd", prefix, n)
+            cases[-1]["kind"] = "missing_path_dunder"
+    return cases
 
 
 # --- derived processors (the copy a sweep / calibration / replace assigns on)
@@ -482,7 +703,7 @@ def gen_derive_cases(ctx: Ctx, budget: int):
             if r.random() < 0.85:
                 k2, kind = key, "valid"
             else:
-                k2, kind = mutate_key(r, key, pipe)
+                k2, kind = mutate_key(r, key, pipe, det)
                 if not ok_str(k2):
                     continue
             cases.append(derive_case(r, det, pipe, k2, cls, field, kind, via))
@@ -495,7 +716,7 @@ def _model_enabled(pipe, key: str) -> bool:
         return True
     for m in pipe.get(parts[1], []):
         if m["name"] == parts[2]:
-            return bool(m["enabled"])
+            return flag_truthy(m["enabled"])
     return True
 
 
@@ -638,11 +859,13 @@ def gen_validate_cases(ctx: Ctx, budget: int):
                     k2 = r.choice([".".join(parts[:2]), ".".join(parts[:2] + ["to_dict"]), ".".join(parts[:2] + ["numbytes"])])
                 else:
                     k2 = r.choice([".".join(parts[:3]), ".".join(parts[:3] + ["name"]), ".".join(parts[:3] + ["arguments"]),
-                                   ".".join(parts[:2])])
+                                   ".".join(parts[:2]),
+                                   # an undeclared argument called like a method of the Mapping class
+                                   ".".join(parts[:3] + ["arguments", r.choice(["values", "items", "keys", "get", "update", "pop"])])])
                 keys.append(k2)
                 kinds.append("nonsetting")
             else:
-                k2, kind = mutate_key(r, key, pipe)
+                k2, kind = mutate_key(r, key, pipe, det)
                 if not ok_str(k2):
                     continue
                 keys.append(k2)
@@ -651,14 +874,86 @@ def gen_validate_cases(ctx: Ctx, budget: int):
             continue
         # a step that is switched off is not part of the sweep, whatever its key (only enabled steps reach Coq)
         c = dict(op="validate", det=det, pipe=pipe, keys=keys, kinds=kinds,
-                 step_enabled=[r.random() < 0.8 for _ in keys])
+                 step_enabled=[r.random() < 0.8 for _ in keys], values=[sweep_values(r, k) for k in keys])
+        if r.random() < 0.25:
+            # the flag of a swept model arrived through a key (Processor.set / an override text) before the sweep
+            pk = [k for k in keys if k.startswith("pipeline.") and len(k.split(".")) >= 4]
+            if pk:
+                parts = r.choice(pk).split(".")
+                c["pre"] = [[".".join(parts[:3] + ["enabled"]), jv(r.choice(PRE_FLAG_VALUES)), r.choice(["set", "override"])]]
         if len(cases) % 3 == 0:
-            # also run the sweep itself (every model is the probe `verif_probes_c08.record`): with a bad key among the
-            # steps it must fail before any model executes
-            c["run"] = True
-            c["mode"] = r.choice(["product", "sequential"])
-            c["pipe"] = {g: [dict(m, func="verif_probes_c08.record") for m in ms] for g, ms in pipe.items()}
+            run_variant(r, c)
         cases.append(c)
+    return cases
+
+
+ENABLED_SWEEPS = [[0, 1], [True, False], [1, 2], [2, 0.0, 1.0], ["1", "0"], ["True", "False"], ["yes", "no"], [0, 0.0], [1, 0, 1]]
+PRE_FLAG_VALUES = ["1", 1, "0", 0, "True", "False", 1.0, True, False, "yes", 2, "1.0"]
+
+
+def sweep_values(r, key: str):
+    if key.endswith(".enabled"):
+        return [jv(x) for x in r.choice(ENABLED_SWEEPS)]
+    if r.random() < 0.7:
+        return [jv(1), jv(2)]
+    return [jv(x) for x in r.choice([["1", "2"], [0.5, 4], ["3", 7], [1, 2, 3], ["0.25", 2], [0, 1], [0.0, 2], ["0", 3]])]
+
+
+def run_variant(r, c):
+    """also run the sweep itself; every model is a tagged probe (`verif_probes_c08.rec__<group>__<model>`) that notes
+    that it was executed and with which argument values: with a bad key among the steps the sweep must fail before any
+    model executes; an accepted sweep that completes must have had its effect on the models it addresses"""
+    c["run"] = True
+    c["mode"] = r.choice(["product", "sequential", "product", "sequential", "custom"])
+    if c["mode"] == "custom" and not any(c["step_enabled"]):
+        c["mode"] = "product"
+    if c["mode"] == "custom":
+        # one run per row of a table file: the columns are floats (a column of 0.0 / 1.0 over an `enabled` key included)
+        n = r.choice([2, 3])
+        c["values"] = [[jv(x) for x in (r.choice([[0.0, 1.0, 1.0], [1.0, 0.0, 2.0], [1.0, 1.0, 0.5]]) if k.endswith(".enabled")
+                                        else r.choice([[1.0, 2.0, 4.0], [0.5, 2.0, 1.0], [0.0, 1.0, 3.0]]))[:n]] for k in c["keys"]]
+    c["pipe"] = {g: [dict(m, func=f"verif_probes_c08.rec__{g}__{m['name']}") for m in ms] for g, ms in c["pipe"].items()}
+    return c
+
+
+def exhaustive_flag_cases(ctx: Ctx):
+    """every non-bool (and bool) value of the `enabled` flag x the way it arrives (configuration / constructor,
+    Processor.set, override text) x what is swept (an argument of that model, an item of its dict-valued argument, the
+    flag itself) — each sweep is RUN with the tagged probe models."""
+    r = ctx.rng("exh_flag")
+    cases = []
+    g, n = "photon_collection", "illumination"
+
+    def pipe_with(flag):
+        return {g: [dict(func="f.shot", name="shot_noise", enabled=True, arguments={"seed": jv(3)}),
+                    dict(func="f.illumination", name=n, enabled=flag,
+                         arguments={"level": jv(7), "d": {"t": "dictv", "v": {"k": jv(1), "w": jv("foo")}}})],
+                "charge_generation": [dict(func="f.conv", name=n, enabled=True, arguments={"level": jv(5)})]}
+
+    arrivals = []
+    for v in [True, False] + FLAG_VALUES:
+        arrivals.append((v if isinstance(v, (bool, dict)) else jv(v), None))
+    for v in PRE_FLAG_VALUES:
+        arrivals.append((r.choice([True, False]), [f"pipeline.{g}.{n}.enabled", jv(v), r.choice(["set", "override"])]))
+    for flag, pre in arrivals:
+        for keys in ([f"pipeline.{g}.{n}.arguments.level"], [f"pipeline.{g}.{n}.arguments.d.k", "detector.geometry.row"]):
+            c = dict(op="validate", det=r.choice(["ccd", "cmos", "mkid", "apd"]), pipe=pipe_with(flag), keys=keys,
+                     kinds=["valid_arg" if "arguments" in k else "valid_geo" for k in keys], step_enabled=[True] * len(keys),
+                     values=[sweep_values(r, k) for k in keys])
+            if pre:
+                c["pre"] = [pre]
+            cases.append(run_variant(r, c))
+    # sweeps over an undeclared argument called like a method of the Mapping class (it exists, so validate_steps lets it
+    # pass — C08-validate-nonsetting — but the sweep itself must fail before any model runs)
+    for name in ("values", "items", "update"):
+        c = dict(op="validate", det="ccd", pipe=pipe_with(True), keys=[f"pipeline.{g}.{n}.arguments.{name}"], kinds=["nonsetting"],
+                 step_enabled=[True], values=[[jv(1), jv(2)]])
+        cases.append(run_variant(r, c))
+    for vs in ENABLED_SWEEPS:
+        for flag in (True, jv(1)):
+            c = dict(op="validate", det="ccd", pipe=pipe_with(flag), keys=[f"pipeline.{g}.{n}.enabled"], kinds=["enabled_flag"],
+                     step_enabled=[True], values=[[jv(x) for x in vs]])
+            cases.append(run_variant(r, c))
     return cases
 
 
@@ -770,12 +1065,17 @@ def emit_validate_file(pairs) -> str:
             cran = f"(Some (None, {core.cnat(ran['ok'])}))"
         else:
             cran = f"(Some (Some {ran['raise']}, {core.cnat(ran['calls'])}))"
+        values = c.get("values") or [[jv(1), jv(2)] for _ in c["keys"]]
+        vals = [vs for vs, en in zip(values, c["step_enabled"]) if en]
+        seen = [sn for sn, en in zip(o.get("seen") or [], c["step_enabled"]) if en]
+        cvals = core.clist(core.clist(cv(x) for x in vs) for vs in vals)
+        cseen = core.clist(f"({core.cnat(n)}, {core.clist(cv(x) for x in sv)})" for n, sv in seen)
         items.append(f"{{| v_tree := {pool.tree(o['before'])}; v_keys := {core.clist(core.cstr(k) for k in keys)}; "
-                     f"v_obs := {core.copt(o['validate'], str)}; v_ran := {cran} |}}")
+                     f"v_obs := {core.copt(o['validate'], str)}; v_ran := {cran};\n     v_vals := {cvals}; v_seen := {cseen} |}}")
     body = ";\n  ".join(items)
     return (HEADER + "\n".join(pool.defs) + f"\nDefinition cases : list vcase := [\n  {body}\n].\n"
             "Eval vm_compute in v_mismatches cases.\nEval vm_compute in v_violations 1 cases.\nEval vm_compute in v_violations 2 cases.\n"
-            "Eval vm_compute in v_violations 3 cases.\n")
+            "Eval vm_compute in v_violations 3 cases.\nEval vm_compute in v_violations 4 cases.\n")
 
 
 # ------------------------------------------------------------------------------------------ classification (signature only)
@@ -1047,7 +1347,7 @@ def leg_validate(ctx: Ctx, cases, tag="v"):
     for k, name in enumerate(sorted(files)):
         ok, evals, se = res[name]
         chunk = pairs[k * per:(k + 1) * per]
-        if not ok or len(evals) != 4:
+        if not ok or len(evals) != 5:
             ctx.broken.append(Broken("correspondence", f"case file {name}.v did not evaluate", core.tail(se, 15)))
             continue
         for i in core.parse_int_list(evals[0]):
@@ -1055,7 +1355,7 @@ def leg_validate(ctx: Ctx, cases, tag="v"):
             ctx.broken.append(Broken("correspondence", "Model/Keys.v validate_steps vs Observation.validate_steps",
                                      f"model and implementation differ on steps {c['keys']}: implementation gives {o['validate']}",
                                      dict(case={k: c[k] for k in ("det", "pipe", "keys")}, observed=o["validate"])))
-        for n, clause in ((1, "validate_silent"), (2, "validate_refused"), (3, "sweep_ran")):
+        for n, clause in ((1, "validate_silent"), (2, "validate_refused"), (3, "sweep_ran"), (4, "sweep_noop")):
             for i in core.parse_int_list(evals[n]):
                 c, o = chunk[i]
                 ctx.violations.append(validate_violation(ctx, c, o, clause))
@@ -1066,6 +1366,11 @@ def leg_validate(ctx: Ctx, cases, tag="v"):
                                                                      f"{o['ran']['raise']} after {min(o['ran']['calls'], 1)}+ model calls"
                                                                      if o["ran"]["calls"] else o["ran"]["raise"] + " before any model"))
         ctx.dist("validate_outcome", o["validate"] or "accepted")
+        if o.get("ran") is not None and "ok" in o["ran"]:
+            # completed sweeps: which value the enabled flag of the swept models held, and how the flag got there
+            for k, en in zip(c["keys"], c["step_enabled"]):
+                if en and k.startswith("pipeline."):
+                    ctx.dist("completed_sweep_model_flag", _flag_class(o["before"], k.split(".")[:3]) + (" (assigned through a key)" if c.get("pre") else ""))
         for kd, en in zip(c["kinds"], c["step_enabled"]):
             ctx.dist("step_key_kind", kd if en else "(step disabled) " + kd)
     return pairs
@@ -1076,6 +1381,21 @@ def validate_violation(ctx, c, o, clause) -> Violation:
              kinds=[k for k, en in zip(c["kinds"], c["step_enabled"]) if en], all_keys=c["keys"], all_kinds=c["kinds"])
     only_flag = all(k == "enabled_flag" or k.startswith("valid_") for k in c["kinds"]) and "enabled_flag" in c["kinds"]
     sig = dict(clause=clause, error=o["validate"] or "none")
+    if clause == "sweep_noop":
+        keys_en = c["keys"]
+        seen = [sn for sn, en in zip(o.get("seen") or [], c["step_enabled"]) if en]
+        flags = sorted({_flag_class(o["before"], k.split(".")[:3]) for k in keys_en if k.startswith("pipeline.")})
+        sig = dict(clause=clause, swept="+".join(sorted({"flag" if k.endswith(".enabled") else "argument" for k in keys_en
+                                                         if k.startswith("pipeline.")})), flag="+".join(flags))
+        case = {k: c[k] for k in ("op", "det", "pipe", "step_enabled", "run", "mode", "values", "pre") if k in c}
+        case["keys"], case["kinds"] = c["all_keys"], c["all_kinds"]
+        return Violation(clause=clause, case=case, observed=dict(validate=o["validate"], ran=o.get("ran"), seen=seen),
+                         expected="an accepted sweep that completes has its effect: every swept value of a model argument arrives "
+                                  "in an execution of that model; a swept `enabled` flag runs the model exactly for its truthy values",
+                         what=f"Observation.run_pipelines ({c.get('mode', 'product')}) on steps {keys_en} was accepted and completed "
+                              f"({o.get('ran')}), but it is a silent no-op: executions of the addressed model / values that arrived per "
+                              f"step = {seen}; `enabled` flag of the swept model(s): {flags}"
+                              + (f"; flag assigned before by {c['pre']}" if c.get("pre") else ""), sig=sig)
     if clause == "validate_refused":
         sig["step_kind"] = "enabled_flag" if only_flag else "+".join(sorted(set(c["kinds"])))
     else:
@@ -1096,7 +1416,7 @@ def validate_violation(ctx, c, o, clause) -> Violation:
                 if en is False:
                     bad.add("disabled_model")
         sig["offending"] = "+".join(sorted(bad)) or "unclassified"
-    case = {k: c[k] for k in ("op", "det", "pipe", "step_enabled", "run", "mode") if k in c}
+    case = {k: c[k] for k in ("op", "det", "pipe", "step_enabled", "run", "mode", "values", "pre") if k in c}
     case["keys"], case["kinds"] = c["all_keys"], c["all_kinds"]
     if clause == "sweep_ran":
         return Violation(clause=clause, case=case, observed=dict(validate=o["validate"], ran=o.get("ran")),
@@ -1108,6 +1428,25 @@ def validate_violation(ctx, c, o, clause) -> Violation:
                      expected="an error iff some swept key is not an existing setting or belongs to a disabled model",
                      what=f"Observation.validate_steps on steps {c['keys']}: {clause} (implementation: {o['validate'] or 'accepted'})",
                      sig=sig)
+
+
+def _flag_class(tree, parts):
+    """classification (signature only) of the value the enabled flag of the model at `parts` holds"""
+    node = tree
+    for p in parts:
+        if "leaf" in node:
+            return "unknown"
+        m = next((m for m in node["members"] if m[0] == p), None)
+        if m is None:
+            return "unknown"
+        node = m[3]
+    if "leaf" in node:
+        return "unknown"
+    m = next((m for m in node["members"] if m[0] == "enabled"), None)
+    if m is None or "leaf" not in m[3]:
+        return "unknown"
+    lv = m[3]["leaf"]
+    return "bool" if lv["t"] == "bool" else "non_bool_" + lv["t"]
 
 
 def _enabled_of(tree, parts):
@@ -1125,7 +1464,18 @@ def _enabled_of(tree, parts):
     if m is None or "leaf" not in m[3]:
         return None
     lv = m[3]["leaf"]
-    return bool(lv.get("v")) if lv["t"] == "bool" else None
+    return flag_truthy(lv) if lv["t"] in ("bool", "int", "dec", "str", "none") else None
+
+
+def load_corpus():
+    """minimised past failures (harness/corpus/C08/*.json), run first"""
+    from pathlib import Path
+    out = []
+    for f in sorted((Path(__file__).resolve().parent.parent / "corpus" / "C08").glob("*.json")):
+        c = json.loads(f.read_text())
+        c.pop("note", None)
+        out.append(c)
+    return out
 
 
 def new_violations(ctx: Ctx):
@@ -1143,20 +1493,34 @@ def run(ctx: Ctx):
         ctx.broken.append(Broken("translation", "translator/c08.py (copy policy of derived processors, setter guards)", str(ex)))
         ctx.log(f"translation failed (continuing with the fallback table): {ex}")
         gen = {"Gen_C08.v": tr.FALLBACK}
-    core.proof_leg(ctx, gen, PROP_FILE)
+    import os, time
+    t0 = [time.time()]
 
-    set_cases = exhaustive_valid_cases(ctx) + gen_set_cases(ctx, ctx.budget(int(__import__('os').environ.get('C08_N', 600)), 4000))
+    def stage(name):
+        if os.environ.get("C08_TIMING"):
+            ctx.log(f"stage {name}: {time.time() - t0[0]:.1f}s")
+        t0[0] = time.time()
+
+    core.proof_leg(ctx, gen, PROP_FILE)
+    stage("proof")
+    load_names(ctx)
+    corpus = load_corpus()
+    set_cases = [c for c in corpus if c["op"] == "set"] + exhaustive_valid_cases(ctx) + exhaustive_class_attr_cases(ctx) + gen_set_cases(ctx, ctx.budget(int(__import__("os").environ.get("C08_N", 540)), 4000))
     pairs, nm = leg_set(ctx, set_cases)
+    stage(f"set ({len(set_cases)} cases)")
     dcases = exhaustive_derive_cases(ctx) + gen_derive_cases(ctx, ctx.budget(240, 1600))
     dpairs, dnm, leads = leg_derive(ctx, dcases)
     nm += dnm
     if leads and not new_violations(ctx):
         _, dnm2, _ = leg_derive(ctx, directed_derive_cases(ctx, leads), tag="wd")
         nm += dnm2
+    stage(f"derive ({len(dcases)} cases)")
     texts = gen_eval_cases(ctx, ctx.budget(900, 6000))
     triples = leg_eval(ctx, texts)
-    vcases = gen_validate_cases(ctx, ctx.budget(240, 1500))
+    stage(f"eval ({len(texts)} texts)")
+    vcases = [c for c in corpus if c["op"] == "validate"] + exhaustive_flag_cases(ctx) + gen_validate_cases(ctx, ctx.budget(210, 1500))
     vpairs = leg_validate(ctx, vcases)
+    stage(f"validate ({len(vcases)} cases, {sum(1 for c in vcases if c.get('run'))} run)")
 
     distinct = {(c["det"], c["key"], json.dumps(c["value"], sort_keys=True), json.dumps(c["pipe"], sort_keys=True)) for c, o in pairs
                 if c["kind"] != "valid" or o["set"] is None}
@@ -1251,7 +1615,8 @@ def replay(ctx: Ctx, rp: dict) -> int:
         o = core.run_driver(ctx, "c08", [case], workers=1)[0]
         print("implementation now:", o.get("validate"))
         ok, evals, se = core.coq_eval(ctx, "replay", emit_validate_file([(case, o)]))
-        bad = ok and any(core.parse_int_list(evals[n]) != [] for n in (1, 2, 3))
+        print("  sweep:", o.get("ran"), " executions / arrived values per step:", o.get("seen"))
+        bad = ok and any(core.parse_int_list(evals[n]) != [] for n in (1, 2, 3, 4))
     if not ok:
         print("case file did not evaluate:", core.tail(se, 10))
         return 1
@@ -1289,13 +1654,21 @@ META = dict(
         "on): under the copy policy regenerated from Processor.__deepcopy__ / ModelGroup.__deepcopy__ / the four copying "
         "entry points no object is shared and the source keeps its whole settings tree; validate_steps rejects an "
         "undeclared / disabled-model key at any position and accepts every admitted key, the enabled flag included "
-        "(C08-enabled-sweep repaired; accepting non-settings is still open and refuted by a proved witness); eval_entry "
+        "(C08-enabled-sweep repaired; accepting non-settings is still open and refuted by a proved witness); whatever "
+        "exists under a key without being an assignable setting (a method or constant of the object's class, e.g. an "
+        "undeclared argument called like a Mapping method, a read-only property, an object) is refused by set(); has() "
+        "confirms only keys whose whole path can be read (C08-has-none repaired); the two readers of a model's enabled "
+        "flag — validation of a sweep and the group iterator that executes models, both tests regenerated from the source — "
+        "agree on every value the flag can hold, hence every model addressed by an accepted sweep is executed; eval_entry "
         "round trip for all integers, mantissa-e-exponent decimals, booleans, None and bare words. The model is tied to "
         "the code by a fail-closed translator (copy policy) and by evaluating it inside Coq against the real Processor on "
         "full before/after settings snapshots (all fields of the 4 detector types, every group/model/argument/flag, "
         "vars() of every object) for valid, misspelt, truncated and extended keys — on the processor itself and on copies "
         "derived through five real entry points, with source, sibling copy, later copy and object identities compared — "
-        "against the real eval_entry on generated texts and the real Observation.validate_steps; the implementation's "
+        "against the real eval_entry on generated texts and the real Observation.validate_steps, and by RUNNING sweeps "
+        "(product, sequential, custom mode) whose models are recording probes: a refused key must stop the sweep before any "
+        "model executes, an accepted sweep must deliver every swept value to the model it addresses (enabled flags holding "
+        "non-bool values, arriving by configuration, Processor.set or override text, included); the implementation's "
         "observations are judged inside Coq against the specification. That the implementation behaves like the model is "
         "established by this correspondence, i.e. by testing."),
     level_note=(
